@@ -1,5 +1,5 @@
 (* C08 — the lemmas of the three proof files assembled under the single hypothesis wf t. *)
-From V.C08 Require Import Model Spec ProofsIface ProofsClass ProofsDispatch.
+From V.C08 Require Import Model Spec ProofsIface ProofsClass ProofsDispatch ProofsHops.
 
 Lemma wf_parts t : wf t = true -> closed t = true /\ acyclic t = true /\ kinds_ok t = true.
 Proof. unfold wf. intros H. apply andb_true_iff in H. destruct H as [H H3]. apply andb_true_iff in H. tauto. Qed.
@@ -97,3 +97,13 @@ Proof. intros H1 H2 Hc. exact (via_sentry_static_l t H1 H2 c cc f s Hc). Qed.
 Lemma sentry_parent_l t c cc f g d p : closed t = true -> acyclic t = true -> get_class t c = Some cc -> static_name t f = true ->
   resolve t c f = Some d -> parent_of t d = Some p -> via_sentry_parent t c f g = Ok (resolve t p g).
 Proof. intros H1 H2 Hc. exact (via_sentry_parent_l t H1 H2 c cc f g d p Hc). Qed.
+
+Lemma call_chain_l t se r c f hs : wf t = true -> get_class t r = Some c ->
+  (se = true -> static_name t f = true) ->
+  (forall d, resolve t r f = Some d -> hops_ok t (negb se) {| s_run := r; s_lexc := d |} hs = true) ->
+  run_hops t se r f hs = Ok (spec_run_hops t r f hs).
+Proof.
+  intros W Hr Hse Hok. destruct (wf_parts t W) as (H1 & H2 & H3).
+  apply (run_hops_l t H1 H2 H3 se r c f hs Hr Hse).
+  destruct (resolve t r f) as [d|]; [now apply Hok|exact I].
+Qed.
